@@ -148,7 +148,10 @@ impl Parser {
                 }
                 TokenEnum::KeywordConst => {
                     if let Ok((const_name, const_def)) = self.parse_const_def(meta) {
-                        const_defs.insert(const_name, const_def);
+                        if const_defs.insert(const_name, const_def).is_some() {
+                            // a second definition must not silently replace the first
+                            self.push_error(ParseErrorEnum::InvalidTopLevelDef, meta);
+                        }
                     } else {
                         self.consume_until_one_of(&top_level_keywords);
                     }
@@ -156,7 +159,9 @@ impl Parser {
                 }
                 TokenEnum::KeywordStruct => {
                     if let Ok((struct_name, struct_def)) = self.parse_struct_def(meta) {
-                        struct_defs.insert(struct_name, struct_def);
+                        if struct_defs.insert(struct_name, struct_def).is_some() {
+                            self.push_error(ParseErrorEnum::InvalidTopLevelDef, meta);
+                        }
                     } else {
                         self.consume_until_one_of(&top_level_keywords);
                     }
@@ -164,7 +169,9 @@ impl Parser {
                 }
                 TokenEnum::KeywordEnum => {
                     if let Ok((enum_name, enum_def)) = self.parse_enum_def(meta) {
-                        enum_defs.insert(enum_name, enum_def);
+                        if enum_defs.insert(enum_name, enum_def).is_some() {
+                            self.push_error(ParseErrorEnum::InvalidTopLevelDef, meta);
+                        }
                     } else {
                         self.consume_until_one_of(&top_level_keywords);
                     }
@@ -173,7 +180,9 @@ impl Parser {
                 TokenEnum::KeywordFn => {
                     if let Ok(fn_def) = self.parse_fn_def(is_pub.is_some(), is_pub.unwrap_or(meta))
                     {
-                        fn_defs.insert(fn_def.identifier.clone(), fn_def);
+                        if fn_defs.insert(fn_def.identifier.clone(), fn_def).is_some() {
+                            self.push_error(ParseErrorEnum::InvalidTopLevelDef, meta);
+                        }
                     } else {
                         self.consume_until_one_of(&top_level_keywords);
                     }
